@@ -27,6 +27,25 @@ CLAIMED["C06"] = (
     "numpy.random is monkey-patched (module-level uniform functions); tolerance tau = n*|sum(w)-1| + 1e-9 copies; multinomial unbiasedness is statistical (alpha 1e-6 then 1e-4 retest).",
     "DESIGN.md §2 C06",
 )
+CLAIMED["C04"] = (
+    "exploration",
+    "property-based testing (Hypothesis): differential against a long-double reference of the documented formula + metamorphic relations (permutation, rescaling, normalisation)",
+    "Histories are generated through the public StateManager API (unequal batches, betas in any order, logz_t in +-1e3, log-likelihoods "
+    "spanning +-1e6); normalised and unnormalised log-weights and the evidence are compared with an independent 80-bit implementation of "
+    "the documented formula, and three metamorphic relations are checked on every case. A generated-input differential is the right level "
+    "for a closed-form numerical routine: any change of the formula shows up on the first non-trivial history.",
+    "Tolerance (64+4N)*eps*max(1,M); trusts numpy long double and the reference written from the docstring/paper formula.",
+    "DESIGN.md §2 C04",
+)
+CLAIMED["C20"] = (
+    "exploration",
+    "property-based testing (Hypothesis): invariants (range, upper-set, alignment) and metamorphic relations (weight rescaling, affine maps) with long-double ESS reference",
+    "Generated weight vectors (to 10^4 entries, 300 decades, zeros, ties), trimming parameters and sample clouds with affine maps up to "
+    "condition 1e6; ESS range/scale invariance/uniform value, the trimming contract (normalised, exact upper set, ESS fraction, alignment) "
+    "and non-negativity plus affine/scale invariance of the volume metric are asserted with stated floating-point tolerances.",
+    "Affine invariance is asserted only below cond(Cov)=1e13 (the documented regularisation branch is beyond); tolerances include the rounding already present in the mapped inputs.",
+    "DESIGN.md §2 C20",
+)
 
 ALL = [f"C{i:02d}" for i in range(1, 21)]
 
